@@ -349,7 +349,7 @@ func runConcurrent(r *mon.Report, rng *rand.Rand) {
 func init() {
 	reg.Register(&reg.Prop{
 		ID: "C20", Level: "exploration", Race: true,
-		Rule: "case kinds: (1) 16 shards that together enumerate EVERY sequence over {success,failure,reset-unknown,rehydrate-healthy,rehydrate-unhealthy} up to the tier's max length against the real nodepoolhealth.State; (2) chunks of random sequences of length 11..64; (3) concurrent Update/Status/DryRun/SetStatus histories checked with porcupine; (4) end-to-end runs of the real registration/liveness/registrationhealth controllers. A case is non-trivial when its monitor compared at least one real Status/DryRun/condition against the reference window; distinct by shard / chunk / (goroutines,prefill) / e2e outcome-sequence signature.",
+		Rule:  "case kinds: (1) 16 shards that together enumerate EVERY sequence over {success,failure,reset-unknown,rehydrate-healthy,rehydrate-unhealthy} up to the tier's max length against the real nodepoolhealth.State; (2) chunks of random sequences of length 11..64; (3) concurrent Update/Status/DryRun/SetStatus histories checked with porcupine; (4) end-to-end runs of the real registration/liveness/registrationhealth controllers. A case is non-trivial when its monitor compared at least one real Status/DryRun/condition against the reference window; distinct by shard / chunk / (goroutines,prefill) / e2e outcome-sequence signature.",
 		Cases: cases, Run: run,
 	})
 }
